@@ -9,8 +9,8 @@ from gen.deccommon import run_dec
 
 
 class SPEC:
-    rule = ("engine dec; alphabet of 32 symbols = {template A, template B, bad template (unknown element in strict mode), template whose field "
-            "count exceeds the specifiers present, template cut inside an enterprise number, template cut right after its id, a well-formed template with ZERO fields (replaces the older one), data} x 2 observation domains x 2 template ids; A and B have different field lists of the "
+    rule = ("engine dec; alphabet of 40 symbols = {template A, template B, bad template (unknown element in strict mode), template whose field "
+            "count exceeds the specifiers present, template cut inside an enterprise number, template cut right after its id, a well-formed template with ZERO fields (replaces the older one), two templates with the same element ids under different enterprises, data} x 2 observation domains x 2 template ids; A and B have different field lists of the "
             "same record length so decoding with the wrong one shows in the values. Quick: ALL histories of length <= 3 plus all "
             "length-4 histories ending in a data symbol, plus random histories of length 5..40; thorough: all of length <= 4, "
             "length-5 ending in data, random up to 200. After each history the stored template keys are compared. "
@@ -30,6 +30,8 @@ def symbols():
     A = [u16, u32]
     B = [u32, u16]
     unknown = G.IE(0, 29999, 0, 4, "")
+    reg = {(ie.ent, ie.id): ie for ie in G.registry()}
+    P101, Q101 = reg[(0, 101)], reg[(56506, 101)]
     sym = {}
     rec = bytes([0x11, 0x22, 0x33, 0x44, 0x55, 0x66])
     for d in DOMS:
@@ -48,6 +50,12 @@ def symbols():
             # empty: a well-formed template record with zero fields - it REPLACES the older template (and
             # data for it is then refused: a record of length 0 cannot be sliced)
             sym[("E", d, i)] = W.message(d, 2, W.template_body(i, []))
+            # P / Q: two templates whose fields carry the SAME element ids under different enterprises (IANA 101
+            # classificationEngineId, 1 byte; Antrea 101 sourcePodName, variable length): a second template for an id
+            # is a NEW definition even when only the enterprise numbers differ (the data symbol decodes to four
+            # 3-byte records under P and is refused under Q)
+            sym[("P", d, i)] = W.message(d, 2, W.template_body(i, [P101, u16]))
+            sym[("Q", d, i)] = W.message(d, 2, W.template_body(i, [Q101, u16]))
             sym[("D", d, i)] = W.message(d, i, rec + rec)
     return sym
 
@@ -64,7 +72,8 @@ def nontrivial(hist):
 
 def gen_cases(rng, tier):
     sym = symbols()
-    keys = sorted(sym)
+    allkeys = sorted(sym)
+    keys = [k for k in allkeys if k[0] not in "PQ"]      # the exhaustive enumeration below (P/Q: see further down)
     cases = []
 
     def add(hist, label):
@@ -79,6 +88,13 @@ def gen_cases(rng, tier):
     for hist in itertools.product(keys, repeat=full):
         for d in datas:
             add(hist + (d,), "exh%d-data" % (full + 1))
+    # same element ids under another enterprise: all histories of length <= 4 (+ a data symbol) over the symbols of ONE key
+    one = [k for k in allkeys if k[1:] == (1, 256) and k[0] in "APQXED"]
+    for n in range(1, 5):
+        for hist in itertools.product(one, repeat=n):
+            if any(k[0] in "PQ" for k in hist):
+                add(hist + (("D", 1, 256),), "same-ids-other-enterprise")
+    keys = allkeys                                       # the random histories draw from the whole alphabet
     nrand = 3000 if tier == "quick" else 40000
     maxlen = 40 if tier == "quick" else 200
     for _ in range(nrand):
@@ -103,5 +119,5 @@ def run(ctx):
     rng = random.Random(ctx.seed * 1000003 + 4)
     cases = gen_cases(rng, ctx.tier)
     res = run_dec(ctx, cases, "C04", signature, use_spec=True)
-    res["notes"].append("histories enumerated exhaustively up to the stated length over the 32-symbol alphabet")
+    res["notes"].append("histories enumerated exhaustively up to the stated length over the 32-symbol core alphabet (all 40 symbols in the random histories and the dedicated same-ids family)")
     return res
